@@ -1,3 +1,4 @@
 //! Thin contract wrappers over library functions (a single forwarding call per entry point) and
 //! instrumented counterpart contracts.
 pub mod math;
+pub mod tokens;
